@@ -426,7 +426,7 @@ pub fn check_sequence(keys: &[K], history: &[String]) -> Outcome {
 
 // ---------------------------------------------------------------- workload
 
-const CHUNK: u64 = 2048;
+const CHUNK: u64 = if cfg!(miri) { 32 } else { 2048 };
 
 fn count_seqs(max_len: u32) -> u64 {
     (1..=max_len).map(|l| (ALPHABET.len() as u64).pow(l)).sum()
@@ -454,7 +454,7 @@ pub fn histories() -> Vec<Vec<String>> {
 }
 
 pub fn run(cfg: &Cfg, col: &mut Collector) {
-    let max_len: u32 = if cfg.miri { 2 } else if cfg.thorough() { 6 } else { 5 };
+    let max_len: u32 = if cfg.miri { 3 } else if cfg.thorough() { 6 } else { 5 };
     let n_seqs = count_seqs(max_len);
     let n_chunks = (n_seqs + CHUNK - 1) / CHUNK;
     let hs = histories();
@@ -562,8 +562,8 @@ fn random_case(seed: u64, i: u64, hs: &[Vec<String>]) -> CaseOut {
     let mut rng = Rng::for_case(seed, "C20", i);
     let extra: &[K] = &[K::Ch('x'), K::Ch('3'), K::Ch('_'), K::Ch('\u{2713}'), K::Ch('\t'), K::Ch('\u{7f}'), K::Ch('-'), K::Ch('\u{3000}')];
     let mut evals = 0;
-    for _ in 0..50 {
-        let len = 20 + rng.below(180);
+    for _ in 0..(if cfg!(miri) { 2 } else { 50 }) {
+        let len = 20 + rng.below(if cfg!(miri) { 40 } else { 180 });
         let keys: Vec<K> = (0..len)
             .map(|_| if rng.chance(1, 6) { *rng.pick(extra) } else { *rng.pick(ALPHABET) })
             .collect();
